@@ -119,12 +119,14 @@ theorem fromFloat_one : Value.fromFloat one = int 1 := by
 theorem C05_trichotomy_partial {a b : Value} (ha : inS a) (hb : inS b) : Laws a b := by
   have hE : beq a b = true ↔ cmp a b = .eq := beq_iff_cmp_eq ha hb
   have hE' : beq b a = true ↔ cmp b a = .eq := beq_iff_cmp_eq hb ha
-  have hsw : (cmp a b).swap = cmp b a :=
-    cmp_swap a b (fun h => rank_ne_obj_of_inD (inD_of_inS ha) h.1)
+  have hsw : cmp b a = (cmp a b).swap :=
+    (cmp_swap a b (fun h => rank_ne_obj_of_inD (inD_of_inS ha) h.1)).symm
   simp only [Laws, ExactlyOne, eq, ne, lt, le, gt, ge, cmpResult, BEq.beq]
-  rw [← hsw] at hE' ⊢
-  cases hc : cmp a b <;> cases hq : beq a b <;> cases hq' : beq b a <;>
-    simp_all
+  rw [hsw] at hE' ⊢
+  generalize cmp a b = o at *
+  generalize beq a b = p at *
+  generalize beq b a = q at *
+  cases o <;> cases p <;> cases q <;> simp_all
 
 /-- non-vacuity: the domain has every scalar kind, ints and non-integral / non-finite floats -/
 example : inS .none ∧ inS (.bool true) ∧ inS (.int (-9007199254740992)) ∧ inS (.float half) ∧
@@ -153,8 +155,9 @@ theorem C05_eq_refl {a : Value} (ha : inS a) : eq a a = true := by
 the order facts themselves are proved in C09order.lean -/
 theorem C05_cmp_numeric_lex_rank :
     (∀ {a b : Value} {x y : Dyadic}, inS a → inS b → num a = some x → num b = some y →
-      (lt a b = decide (x < y) ∧ gt a b = decide (y < x) ∧ eq a b = decide (x = y))) ∧
-    (∀ s t : String, lt (str s) (str t) = decide (s < t) ∧ eq (str s) (str t) = decide (s = t)) ∧
+      ((lt a b = true ↔ x < y) ∧ (gt a b = true ↔ y < x) ∧ (eq a b = true ↔ x = y))) ∧
+    (∀ s t : String, (lt (str s) (str t) = true ↔ compare s t = .lt) ∧
+      (gt (str s) (str t) = true ↔ compare s t = .gt) ∧ (eq (str s) (str t) = true ↔ s = t)) ∧
     (∀ a b : Value, a.rank < b.rank → lt a b = true ∧ gt a b = false ∧ eq a b = false) := by
   refine ⟨?_, ?_, ?_⟩
   · intro a b x y ha hb hx hy
@@ -162,23 +165,14 @@ theorem C05_cmp_numeric_lex_rank :
     have hE := beq_iff_cmp_eq ha hb
     simp only [lt, gt, eq, cmpResult, BEq.beq]
     rw [hc] at hE ⊢
-    unfold dcmp at hE ⊢
-    by_cases h1 : x < y
-    · have h2 : ¬ y < x := Std.lt_asymm h1
-      have h3 : x ≠ y := fun h => by subst h; exact Std.lt_irrefl h1
-      simp_all
-    · by_cases h3 : x = y
-      · subst h3; simp_all
-      · have h2 : y < x := by
-          rcases Std.lt_trichotomy x y with h | h | h <;> simp_all
-        simp_all
+    rw [hE]
+    simp only [decide_eq_true_eq]
+    exact ⟨dcmp_eq_lt, dcmp_eq_gt, dcmp_eq_eq⟩
   · intro s t
-    simp only [lt, eq, cmpResult, BEq.beq, beq, cmp]
-    constructor
-    · cases h : compare s t <;> simp_all [Std.compare_eq_lt, Std.compare_eq_gt]
-      · exact Std.not_lt.2 (Std.le_of_eq (Std.compare_eq_iff_eq.1 h).symm)
-      · exact Std.lt_asymm (Std.compare_eq_gt.1 h)
-    · rfl
+    simp only [lt, gt, eq, cmpResult, cmp, beq_iff_eq]
+    refine ⟨trivial, trivial, ?_⟩
+    show beq (str s) (str t) = true ↔ s = t
+    simp [beq]
   · intro a b h
     simp only [lt, gt, eq, cmpResult, cmp_rank_lt a b h, BEq.beq]
     refine ⟨rfl, rfl, ?_⟩
